@@ -89,6 +89,11 @@ CLAIMS = {
                   'compares the views of one record with each other (same destination, same issues up to the key names). Known findings D17/D18/D24 are attributed by re-validating against the named specification variants.',
              technique='TLC trace validation of one record rendered through every front end (Trace_Exec, fe-aware KeyOf/ChildIn) + TLC model checking of ZogExec', ref='5 C14, 3.4',
              note='Multipart forms and custom zhttp Config.Parsers are not covered. Lists are not rendered for the environment; slices of structs are not expressible in flat sources and are not generated there.'),
+ 'C06': dict(engine='Tables', text='The quantifier over all dynamic input types is made finite as a lattice of input kinds (spec/Tab_C06.tla) crossed with every schema kind and position (2964 rows); for struct schemas the table also states '
+                  'how a value must become a record (record / empty record / coerce issue). TLC checks no row expects a panic, emits every row and validates every observation; the harness realises each lattice point with a constructor '
+                  'catalogue, nests points to depth 3 with a seed, and runs every Parse under recover(). All traced executions of the traversal engine (random schemas, tags, six front ends) are additionally run under recover().',
+             technique='TLC-enumerated input-kind lattice + exhaustive replay under recover(), validated by TLC', ref='5 C06, 3.4',
+             note='Panic freedom for ALL Go types is not decidable by enumeration; the lattice is closed under reflect.Kind. TLC contributes enumeration, the provider-class expectation and validation.'),
 }
 NA_REASON = 'check not built yet (work in progress; DESIGN.md section 11 gives the build order)'
 checks = []
@@ -105,7 +110,7 @@ m = dict(version=1, setup_cmd='bin/setup',
                     baseline_off_cmd='cd /repo && go test -vet=off -count=1 ./...', source_commits=hook_commits, add_only=True),
          engines=[dict(name='ZogHeap', path='/verif/spec/ZogHeap.tla', serves_properties=['C19'], kind_free_text='TLA+ ownership model + observed episodes'),
                   dict(name='ZogChain', path='/verif/spec/ZogChain.tla', serves_properties=['C17'], kind_free_text='TLA+ builder-chain machine vs declarative reading + chains executed on the real builder API'),
-                  dict(name='Tables', path='/verif/spec/Tab_C18.tla', serves_properties=['C18', 'C03', 'C04', 'C20', 'C11', 'C15'], kind_free_text='finite decision tables in TLA+ (Tab_C03, Tab_C04, Tab_C18): TLC checks table invariants, emits rows, validates observed outcomes'),
+                  dict(name='Tables', path='/verif/spec/Tab_C18.tla', serves_properties=['C18', 'C03', 'C04', 'C20', 'C11', 'C15', 'C06'], kind_free_text='finite decision tables in TLA+ (Tab_C03, Tab_C04, Tab_C18): TLC checks table invariants, emits rows, validates observed outcomes'),
                   dict(name='ZogBuild', path='/verif/spec/ZogBuild.tla', serves_properties=['C16'], kind_free_text='TLA+ model of builder histories over Go slices with backing-array identity + trace validation'),
                   dict(name='ZogPools', path='/verif/spec/ZogPools.tla', serves_properties=['C07', 'C08'], kind_free_text='TLA+ model of pooled objects, call histories and goroutines (TLC) + history replay + TLC trace validation of pool events'),
                   dict(name='ZogExec', path='/verif/spec/ZogExec.tla', serves_properties=[p for p in props if p in CLAIMS and CLAIMS[p].get('engine', 'ZogExec') == 'ZogExec'],
